@@ -7,6 +7,8 @@
 // with the clock at the flush time (the sequence of flusher.go flushData).  At every flush
 // the set of series given to Process and their C09-relevant values are recorded.
 //
+// Stream "e2e" (e2e.go): the real standalone pipeline over loopback UDP on the real clock.
+//
 // Stream "cfg": the real cmd/gostatsd configuration code (setupConfiguration +
 // constructServer, reached through the verif hook of package main) is run on command lines /
 // config files with and without expiry-interval / expiry-interval-<type>; the four intervals
@@ -40,7 +42,7 @@ type opIn struct {
 }
 
 type input struct {
-	Kind  string   `json:"kind"` // hist | cfg
+	Kind  string   `json:"kind"` // hist | cfg | e2e
 	Cfg   [4]int64 `json:"cfg"`  // counter, gauge, set, timer expiry in ns
 	Lim   uint32   `json:"lim"`
 	Ops   []opIn   `json:"ops"`
@@ -48,6 +50,8 @@ type input struct {
 	// cfg stream
 	Args []string `json:"args,omitempty"`
 	File string   `json:"file,omitempty"` // contents of a TOML config file ("" = none)
+	// e2e stream (e2e.go)
+	E2E *e2eIn `json:"e2e,omitempty"`
 }
 
 const (
@@ -463,9 +467,12 @@ func genCfg(r *hlib.Rand) input {
 // ---------------------------------------------------------------------------------------
 
 func runOne(em *hlib.Emitter, in input) {
-	if in.Kind == "cfg" {
+	switch {
+	case in.Kind == "cfg":
 		runCfg(em, in)
-	} else {
+	case in.Kind == "e2e" && in.E2E != nil:
+		em.Emit(runE2E(in))
+	default:
 		runHist(em, in)
 	}
 }
@@ -485,9 +492,27 @@ func main() {
 		if ncfg > maxCfg {
 			ncfg = maxCfg
 		}
-		for n := 0; n < a.N; n++ {
+		// real-time end-to-end cases first (before the CPU-heavy streams), concurrently
+		ne2e, batch := 6, 6
+		if a.Tier == "thorough" {
+			ne2e = 30
+		}
+		if ne2e > a.N/10 {
+			ne2e = a.N / 10
+		}
+		er := r.Fork()
+		for done := 0; done < ne2e; done += batch {
+			var ins []input
+			for i := done; i < ne2e && i < done+batch; i++ {
+				ins = append(ins, genE2E(er))
+			}
+			for _, c := range runE2EBatch(ins) {
+				em.Emit(c)
+			}
+		}
+		for n := ne2e; n < a.N; n++ {
 			cr := r.Fork()
-			if n < ncfg {
+			if n < ne2e+ncfg {
 				runOne(em, genCfg(cr))
 			} else {
 				runOne(em, genHist(cr, a.Tier))
